@@ -14,7 +14,8 @@ RULE = (
     "volumes(2), n_grains(4), parameter set {default, M*=200 & chi=0.9, chi=0, M*=0}); EVERY k in "
     "{1e-16,1e-15,1e-12,1e-8,1e-4,1e-2,10,1e3}; ALL sequences to depth 2 (quick) / 3 (thorough) over "
     "the 12 update letters (6 flows incl. time- and position-dependent x 2 strain increments), plus "
-    "the partition letters (a span split into 1,2,5 updates). After every update the twin's stored "
+    "the partition letters (a span split into 1,2,5 updates), plus callables that hand out STORED "
+    "array objects (constants and views into a piecewise-constant table; depth 2, 9 k incl. 1). After every update the twin's stored "
     "snapshot and returned F are compared with the primary's. Non-trivial: k != 1 and the update "
     "changed the texture; distinct = reached state."
 )
@@ -45,7 +46,39 @@ def gen_cases(tier, seed):
     for fab in alph.FABRICS:
         for kk in KS:
             keys.append(dict(part="chain", fab=fab, reg="disl", tex="random", vol="geometric", ng=8, prm="default", k=kk))
+    # environment answer "the callable hands out the SAME array object on every call" (a stored
+    # constant, or a view into a stored table of a piecewise-constant history) instead of a
+    # fresh array: an update that rescales its inputs in place corrupts the caller's history
+    # by a k-dependent amount (seed C05d)
+    for fab in alph.FABRICS:
+        for reg in ("disl", "yield"):
+            for kk in KS + ["1"]:
+                keys.append(dict(part="stored", fab=fab, reg=reg, tex="random", vol="uniform", ng=5, prm="default", k=kk))
     return keys
+
+
+STORED_LETTERS = [("st_gen", 0.3), ("st_ss", 0.3), ("st_table", 0.6)]
+
+
+def stored_flows(k):
+    """Flows whose callable returns stored array objects (k = rate factor; the time axis is
+    compressed by 1/k).  Built afresh for every case."""
+    g = H.flow("gen").const
+    ss = H.flow("ss_xz").const
+    base = {"st_gen": 1.7 * g, "st_ss": 0.6 * ss}
+    out = {}
+    for nm, L0 in base.items():
+        Lk = k * np.array(L0)
+        out[nm] = H.Flow(nm, lambda t, x, Lk=Lk: Lk, lambda t: np.zeros(3), const=k * np.array(L0))
+    tab0 = np.stack([0.6 * ss, 1.7 * g, H.flow("ps_xy").const])
+    tab = k * tab0
+
+    def Lt(t, x, tab=tab):
+        return tab[min(2, max(0, int(np.floor(k * t / 0.25))))]
+
+    out["st_table"] = H.Flow("st_table", Lt, lambda t: np.zeros(3))
+    out["_stored"] = [(k * np.array(L0), out[nm].L(0.0, None)) for nm, L0 in base.items()] + [(k * tab0, tab)]
+    return out
 
 
 def run_case(key):
@@ -88,13 +121,21 @@ def run_case(key):
                     cl["seam_unit_strain_rate"] = cl.get("seam_unit_strain_rate", 0) + 1
                     dev = max(abs(v - 1.0) for v in vals)
                     res["notes"]["max_seam_strain_rate_dev"] = max(res["notes"].get("max_seam_strain_rate_dev", 0.0), dev)
-        if kf != 1.0 and not np.array_equal(a.orientations[-1], a.orientations[-2]):
+        if (kf != 1.0 or key["part"] == "stored") and not np.array_equal(a.orientations[-1], a.orientations[-2]):
             res["nontrivial"].append(H.canon(child))
 
     fa = H.flow
     fb_ = lambda nm: H.scaled_flow(H.flow(nm), kf)  # noqa
     tb = lambda t: t / kf  # noqa
-    if key["part"] == "hist":
+    if key["part"] == "stored":
+        A, B = stored_flows(1.0), stored_flows(kf)
+        obs = H.twin_explore(res, key, prm, prm, root, STORED_LETTERS, 2, A.__getitem__, B.__getitem__, tb, compare)
+        # observer: were the caller's stored arrays left alone?
+        for fl in (A, B):
+            for want, have in fl["_stored"]:
+                if not np.array_equal(want, have):
+                    res["notes"]["caller_arrays_modified"] = res["notes"].get("caller_arrays_modified", 0) + 1
+    elif key["part"] == "hist":
         obs = H.twin_explore(res, key, prm, prm, root, H.STEP_LETTERS, key["depth"], fa, fb_, tb, compare)
     else:
         obs = []
